@@ -283,6 +283,56 @@ func TestFixedScenarios(t *testing.T) {
 	}
 }
 
+// TestDeepChains: use() chains of depth 5..40; every level sets the same variable names and one point key; at the
+// bottom: nothing, exit(), a failing statement. The caller at every level continues with its own variables, the
+// error chain lists every call site.
+func TestDeepChains(t *testing.T) {
+	n := 0
+	for _, depth := range []int{5, 15, 16, 17, 31, 32, 33, 40} {
+		for bottom := 0; bottom < 4; bottom++ {
+			scripts := map[string][]*gen.Node{}
+			name := func(i int) string {
+				if i == 0 {
+					return "main.p"
+				}
+				return fmt.Sprintf("s%d.p", i)
+			}
+			for i := 0; i < depth; i++ {
+				body := []*gen.Node{gen.NSet("v", gen.NInt(int64(i))), gen.NSet("w", gen.NStr(name(i))),
+					gen.NCall("add_key", id("k1"), gen.NBin("+", id("k1"), gen.NInt(1)))}
+				call := gen.NCall("use", gen.NStr(name(i+1)))
+				switch i % 3 {
+				case 0:
+					body = append(body, call)
+				case 1:
+					body = append(body, gen.NIf([]*gen.Node{gen.NBin("==", id("v"), gen.NInt(int64(i)))}, [][]*gen.Node{{call}}, nil, false))
+				default:
+					body = append(body, gen.NForIn("e", gen.NList(gen.NInt(1)), []*gen.Node{call}))
+				}
+				body = append(body, gen.NCall("probe", gen.NStr("back-in-"+name(i)), id("v"), id("w"), id("k1")))
+				scripts[name(i)] = body
+			}
+			last := []*gen.Node{gen.NCall("probe", gen.NStr("bottom"), id("v"), id("w"), id("k1"))}
+			switch bottom {
+			case 1:
+				last = append(last, gen.NCall("exit"), gen.NCall("probe", gen.NStr("never")))
+			case 2:
+				last = append(last, gen.NCall("perr"), gen.NCall("probe", gen.NStr("never")))
+			case 3:
+				last = append(last, gen.NIf([]*gen.Node{gen.NBool(true)}, [][]*gen.Node{{gen.NSet("q", gen.NBin("+", gen.NInt(1), gen.NStr("a")))}}, nil, false))
+			}
+			scripts[name(depth)] = last
+			c := &sem.Case{Scripts: map[string][]*gen.Node{}, Root: "main.p", Meas: "m", Fields: map[string]any{"k1": int64(1)}}
+			for k, p := range scripts {
+				c.Scripts[k] = gen.FixAll(p)
+			}
+			judge(t, "deep", c, fmt.Sprintf("deep/%d/%d", depth, bottom), true, "deep-chain", fmt.Sprintf("call-depth/%d", depth))
+			n++
+		}
+	}
+	evid.Exhaustive("use chains of depth 5..40 x {plain, exit, perr, ill-typed} at the bottom", n)
+}
+
 func TestReplays(t *testing.T) {
 	files, _ := filepath.Glob(filepath.Join(evid.Dir(), "replays", prop, "*.json"))
 	if r := os.Getenv("VERIF_REPLAY"); r != "" {
